@@ -149,6 +149,36 @@ Theorem strict_out_is_in : forall v a ins op,
 Proof. exact strict_out_structure. Qed.
 Print Assumptions strict_out_is_in.
 
+(* No state is carried from one leaf to the next ("the result never depends on anything but the values,
+   the axes and the input"): the constructor accepts a pytree iff it accepts the values and EVERY leaf
+   taken on its own - so the strict class rejects when ANY leaf, first, middle or last, of a rank already
+   seen or not, would change shape (strict_preserves_shape on the one-leaf structures) ... *)
+Theorem ctor_decided_leaf_by_leaf : forall cls v a ins,
+  (exists op, Diag_ctor cls v a ins = Ok op) <->
+  ((exists op, Diag_ctor cls v a [] = Ok op) /\
+   Forall (fun sh => exists op, Diag_ctor cls v a [sh] = Ok op) ins).
+Proof. exact ctor_leafwise. Qed.
+Print Assumptions ctor_decided_leaf_by_leaf.
+
+(* ... whatever the order of the leaves ... *)
+Theorem ctor_leaf_order_irrelevant : forall cls v a ins ins', Permutation.Permutation ins ins' ->
+  ((exists op, Diag_ctor cls v a ins = Ok op) <-> (exists op, Diag_ctor cls v a ins' = Ok op)).
+Proof. exact ctor_order_irrelevant. Qed.
+Print Assumptions ctor_leaf_order_irrelevant.
+
+(* ... and each leaf of the result of a multi-leaf call is the result of the one-leaf call on it; a leaf
+   on which the one-leaf call raises makes the whole call raise *)
+Theorem mv_decided_leaf_by_leaf : forall (K : Type) (k0 : K) (kmul : K -> K -> K) op (d : arr K) x y,
+  diag_mv K k0 kmul op d x = Ok y ->
+  Forall2 (fun xi yi => diag_mv K k0 kmul op d [xi] = Ok [yi]) x y.
+Proof. exact mv_leafwise. Qed.
+Print Assumptions mv_decided_leaf_by_leaf.
+
+Theorem mv_one_bad_leaf_raises : forall (K : Type) (k0 : K) (kmul : K -> K -> K) op (d : arr K) x xi e,
+  In xi x -> diag_mv K k0 kmul op d [xi] = Err e -> exists e', diag_mv K k0 kmul op d x = Err e'.
+Proof. exact mv_leaf_error. Qed.
+Print Assumptions mv_one_bad_leaf_raises.
+
 (* ---------------------------------------------------------------------------------------------- *)
 (* DiagonalOperator.as_matrix() is the dense matrix of mv: column j = flattened image of the j-th basis
    vector (over any carrier where v*0 = 0 and v*1 = v) *)
@@ -247,6 +277,24 @@ Example rejection_examples :
   Diag_ctor DBroadcast (VLeaf []) (AInt (-1)) [[3]%nat] = Err ValueError /\
   Diag_ctor DBroadcast VTree (AInt (-1)) [[3]%nat] = Err ValueError.
 Proof. repeat split; reflexivity. Qed.
+
+(* same-rank leaves: values (3,) along axis 0 - the strict class rejects when the offending leaf (1,2) comes
+   first, last, or third after a leaf of its rank was already accepted; the broadcast class accepts and
+   maps (1,2) to (3,2); the hypotheses of ctor_decided_leaf_by_leaf / ctor_leaf_order_irrelevant hold *)
+Example same_rank_leaves_example :
+  Diag_ctor DStrict (VLeaf [3]%nat) (AInt 0) [[1; 2]%nat; [3; 2]%nat] = Err ValueError /\
+  Diag_ctor DStrict (VLeaf [3]%nat) (AInt 0) [[3; 2]%nat; [1; 2]%nat] = Err ValueError /\
+  Diag_ctor DStrict (VLeaf [3]%nat) (AInt 0) [[3]%nat; [3; 4]%nat; [1]%nat] = Err ValueError /\
+  Diag_ctor DStrict (VLeaf [3]%nat) (AInt 0) [[3; 2]%nat; [3; 5]%nat] =
+    Ok (mkDiag DStrict [3]%nat [0] [[3; 2]%nat; [3; 5]%nat]) /\
+  (exists op, Diag_ctor DBroadcast (VLeaf [3]%nat) (AInt 0) [[3; 2]%nat; [1; 2]%nat] = Ok op /\
+              d_out_structure op = Ok [[3; 2]%nat; [3; 2]%nat]) /\
+  Permutation.Permutation [[3; 2]%nat; [1; 2]%nat] [[1; 2]%nat; [3; 2]%nat].
+Proof.
+  repeat split; try reflexivity.
+  - eexists; split; reflexivity.
+  - apply Permutation.perm_swap.
+Qed.
 
 (* boundary (outside the documented "as many axes as dimensions"): a tuple shorter than values.ndim is
    not rejected as such; the remaining value axes keep their order (jnp.moveaxis) *)
